@@ -55,7 +55,13 @@ class Case:
                  validator="none", completion="circular", timeout="none", cols=80, reads=1, binds=(),
                  chunks=None, printer=False, helper=None, meta=None):
         self.keys = list(keys)
-        self.mode, self.prompt, self.history, self.initial = mode, prompt, list(history), initial
+        # the editor's history ignores consecutive duplicates and empty lines (default settings):
+        # give both sides the list it will actually hold
+        h2 = []
+        for h in history:
+            if h and (not h2 or h2[-1] != h):
+                h2.append(h)
+        self.mode, self.prompt, self.history, self.initial = mode, prompt, h2, initial
         self.cands, self.hints, self.validator = cands, hints, validator
         self.completion, self.timeout, self.cols, self.reads = completion, timeout, cols, reads
         self.binds = list(binds)
@@ -168,6 +174,19 @@ def strip_w(reads):
     return [r.split(" W=")[0] for r in reads]
 
 
+def _pty_job(job):
+    exe, spec, ch, cols = job
+    last = None
+    for attempt in range(2):
+        try:
+            r = ptydrive.run_case(exe, spec, ch, cols=cols)
+            r.pop("termios_probe", None)
+            return r
+        except OSError as e:      # infrastructure (fork / pty exhaustion): retry once
+            last = e
+    return "OSError %s" % last
+
+
 def run_tty_cases(res, exe, driver, cases, tmp, tag, compare_output=True, rng=None, typeahead=0.0):
     """Runs the cases on both sides. Returns [(case, impl_reads, model_reads, raw)]."""
     prepared = []
@@ -175,18 +194,15 @@ def run_tty_cases(res, exe, driver, cases, tmp, tag, compare_output=True, rng=No
         ch = c.chunks if c.chunks is not None else chunks_of(c.keys, rng, typeahead)
         prepared.append((c, ch))
 
-    def one(pc):
-        c, ch = pc
-        last = None
-        for attempt in range(2):
-            try:
-                return ptydrive.run_case(exe, c.spec(), ch, cols=c.cols)
-            except OSError as e:      # infrastructure (fork / pty exhaustion): retry once
-                last = e
-        raise InfraError("pty driver: %s" % last)
-
-    with ThreadPoolExecutor(NPROC) as ex:
-        raws = list(ex.map(one, prepared))
+    jobs = [(exe, c.spec(), ch, c.cols) for c, ch in prepared]
+    # processes, not threads: the driver polls /proc and must not share a GIL
+    import multiprocessing
+    ctx = multiprocessing.get_context("fork")
+    with ctx.Pool(NPROC) as pool:
+        raws = pool.map(_pty_job, jobs, chunksize=max(1, len(jobs) // (NPROC * 8)))
+    for r in raws:
+        if isinstance(r, str):
+            raise InfraError("pty driver: " + r)
     model_lines = [c.model_line(ch) for c, ch in prepared]
     models = run_model(driver, "tty", model_lines, tmp) if driver else [None] * len(cases)
     out = []
@@ -223,3 +239,131 @@ def parse_read(rd):
             t = item.split(" ")
             obs.append((dec(t[0]), int(t[1]), t[2], int(t[3]), t[4] == "1", None if t[5] == "none" else dec(t[5])))
     return o, obs, dec(w)
+
+
+# ---------------------------------------------------------------- script generators
+
+TEXT = ["a", "b", "Z", "9", "_", " ", " ", ",", ".", "(", ")", "é", "日", "😀", "́", "x", "-", "1"]
+EMACS_MOVES = ["C-a", "C-b", "C-e", "C-f", "Left", "Right", "Home", "End", "M-b", "M-f", "C-Left", "C-Right",
+               "M-Left", "M-Right", "Home2", "End2"]
+EMACS_EDITS = ["C-h", "Backspace", "C-d", "Delete", "C-k", "C-u", "C-w", "M-d", "M-Backspace", "C-y", "M-y", "C-t", "M-t",
+               "M-c", "M-l", "M-u", "C-_"]
+EMACS_HIST = ["Up", "Down", "C-p", "C-n", "M-<", "M->", "Up2", "Down2"]
+VI_MOTIONS = ["h", "l", "w", "b", "e", "W", "B", "E", "0", "$", "^", " ", "Backspace"]
+VI_CHARSEARCH = ["f", "F", "t", "T"]
+
+
+def gen_emacs(rng, n, history=False, extra=()):
+    ks = []
+    while len(ks) < n:
+        r = rng.random()
+        if r < 0.42:
+            ks.append(rng.choice(TEXT))
+        elif r < 0.57:
+            ks.append(rng.choice(EMACS_MOVES))
+        elif r < 0.80:
+            ks.append(rng.choice(EMACS_EDITS))
+        elif r < 0.85:
+            # numeric argument, possibly negative, possibly multi-digit
+            if rng.random() < 0.3:
+                ks.append("M--")
+            for _ in range(rng.choice([1, 1, 1, 2])):
+                ks.append("M-" + rng.choice("123456789"))
+            if rng.random() < 0.3:
+                ks.append(rng.choice("0123456789"))
+            ks.append(rng.choice(TEXT[:6] + EMACS_MOVES[:6] + EMACS_EDITS))
+        elif r < 0.88:
+            ks += ["C-x", rng.choice(["C-u", "C-u", "Backspace", "C-g", "a"])]
+        elif r < 0.91:
+            ks += [rng.choice(["C-v", "C-q"]), rng.choice(["C-j", "a", "Tab", "é"])]
+        elif r < 0.93:
+            ks += [rng.choice(["C-]", "M-C-]"]), rng.choice(["a", " ", ",", "é"])]
+        elif r < 0.97 and history:
+            ks.append(rng.choice(EMACS_HIST))
+        elif extra:
+            ks.append(rng.choice(extra))
+        else:
+            ks.append(rng.choice(["C-l", "F5", "Insert", "PageUp", "S-Up", "C-g"]))
+    return ks
+
+
+def gen_vi(rng, n, history=False):
+    ks = []
+    insert = True
+    while len(ks) < n:
+        if insert:
+            r = rng.random()
+            if r < 0.55:
+                ks.append(rng.choice(TEXT))
+            elif r < 0.63:
+                ks.append(rng.choice(["Backspace", "C-h", "C-w", "C-u", "C-k", "Left", "Right", "Home", "End", "C-t", "C-y"]))
+            elif r < 0.66 and history:
+                ks.append(rng.choice(["Up", "Down"]))
+            elif r < 0.70:
+                ks += ["C-v", rng.choice(["C-j", "a"])]
+            else:
+                ks.append("Esc")
+                insert = False
+        else:
+            r = rng.random()
+            cnt = []
+            if rng.random() < 0.25:
+                cnt = [rng.choice("123456789")] + ([rng.choice("0123456789")] if rng.random() < 0.15 else [])
+            if r < 0.30:
+                ks += cnt + [rng.choice(VI_MOTIONS)]
+            elif r < 0.38:
+                ks += cnt + [rng.choice(VI_CHARSEARCH), rng.choice(["a", " ", ",", "é", "b"])]
+            elif r < 0.42:
+                ks += cnt + [rng.choice([";", ","])]
+            elif r < 0.60:
+                op = rng.choice(["d", "d", "c", "y", "d", "<", ">"])
+                mot = rng.choice(VI_MOTIONS[:11] + [op, op, "j", "k"])
+                cnt2 = [rng.choice("23")] if rng.random() < 0.2 else []
+                ks += cnt + [op] + cnt2
+                if rng.random() < 0.15:
+                    ks += [rng.choice(VI_CHARSEARCH), rng.choice(["a", " ", ","])]
+                else:
+                    ks.append(mot)
+                if op == "c":
+                    insert = True
+            elif r < 0.70:
+                ks += cnt + [rng.choice(["x", "X", "p", "P", "u", ".", ".", "D"])]
+            elif r < 0.75:
+                ks += cnt + ["r", rng.choice(["a", "é", " ", "Esc"])]
+            elif r < 0.90:
+                ks += cnt + [rng.choice(["i", "a", "I", "A", "s", "S", "C", "R"])]
+                insert = True
+            elif r < 0.95 and history:
+                ks += cnt + [rng.choice(["j", "k", "+", "-", "C-p", "C-n"])]
+            else:
+                ks.append(rng.choice(["Esc", "C-l", "F5", "~", "Delete", "C-u", "C-w", "C-k"]))
+    return ks
+
+
+HIST_POOL = ["one", "two words", "é日", "a b,c", "multi\nline\nentry", "x", "two words", "  lead"]
+
+
+def c01_cases(tier, seed):
+    rng = random.Random(seed * 211 + 17)
+    n = 6000 if tier == "thorough" else 320
+    cases = []
+    for _ in range(n):
+        mode = rng.choice(["emacs", "emacs", "vi"])
+        hist = [rng.choice(HIST_POOL) for _ in range(rng.choice([0, 0, 1, 2, 3]))]
+        ln = rng.randint(6, 40 if tier == "thorough" else 26)
+        keys = gen_emacs(rng, ln, bool(hist)) if mode == "emacs" else gen_vi(rng, ln, bool(hist))
+        if mode == "vi" and rng.random() < 0.5:
+            keys = [k for k in keys]
+        keys.append("Enter")
+        initial = None
+        if rng.random() < 0.25:
+            t = "".join(rng.choice(TEXT) for _ in range(rng.randint(1, 8)))
+            k = rng.randint(0, len(t))
+            initial = (t[:k], t[k:])
+        binds = []
+        if rng.random() < 0.15:
+            binds = [("F5", "upcase"), ("C:58,C:45", "insert 71.71")]     # F5, C-x C-e
+        cases.append(Case(keys, mode=mode, history=hist, initial=initial, timeout=0 if mode == "vi" else rng.choice(["none", 0]),
+                          prompt=rng.choice(["> ", "", "日> "]), binds=binds,
+                          printer=rng.random() < 0.2, meta={}))
+    return cases
